@@ -66,6 +66,8 @@ def decErr? : String → Option IOErr
   | "enospc" => some .enospc | "eio" => some .eio | "eacces" => some .eacces | "eperm" => some .eperm
   | "enoent" => some .enoent | "eintr" => some .eintr | "eagain" => some .eagain
   | "etimedout" => some .etimedout | "ioerror" => some .ioerror
+  | "enametoolong" => some .enametoolong | "enotdir" => some .enotdir | "erofs" => some .erofs
+  | "eloop" => some .eloop
   | "kbint" => some .keyboardInterrupt | "cancelled" => some .cancelled | "sysexit" => some .systemExit
   | "memory" => some .memoryError | "exception" => some .exception
   | _ => none
